@@ -107,7 +107,7 @@ static void check_cps(const unsigned *cpin, int n0, int marks)
 {
 	static const int tds[] = {-2, -1, 0, 1, 2};
 	static const int orders[] = {0, 1, 2};
-	static const int lims[] = {2, 256};
+	static const int lims[] = {2, 256, 4};
 	char s[MAXC * 4 + 8];
 	unsigned cp[MAXC + 2];
 	int ord[MAXC + 2], vis[MAXC + 2], seen[MAXC + 2];
@@ -211,7 +211,7 @@ static void check_cps(const unsigned *cpin, int n0, int marks)
 		}
 		/* the column layout must follow the same visual order whenever reordering is enabled */
 		for (io = 0; io < 3; io++)
-			for (il = 0; il < 2; il++) {
+			for (il = 0; il < 3; il++) {
 				int *pos, active, col = 0;
 				xorder = orders[io];
 				xlim = lims[il];
